@@ -391,7 +391,37 @@ func Rename(p *Program, intn func(int) int, opts ...RenameOpts) (*Program, *Rena
 			info.FuncsRen++
 		}
 	}
+	// labels spelled a17, b52, ... (the generator's DistinctLabels profile): now and then they all
+	// lose their number, so that different choices share spellings again - a renaming that is not
+	// injective but cannot capture, since the labels of one choice keep different letters
+	collapsed := false
 	if intn(2) == 1 {
+		for _, t := range allChoiceLabels(p) {
+			if len(t) >= 2 && (t[0] == 'a' || t[0] == 'b' || t[0] == 'c') && strings.Trim(t[1:], "0123456789") == "" {
+				r.brs[t] = t[:1]
+				collapsed = true
+			}
+		}
+		if collapsed {
+			info.BranchesRen++
+		}
+	}
+	if !collapsed && intn(2) == 1 {
+		// deliberately related spellings: either prefix-related (l, lb, lbb, ...: every label is a
+		// proper prefix of all later ones) or equal up to letter case (label, Label, lAbel, ...)
+		caseScheme := intn(2) == 1
+		spell := func(i int) string {
+			if !caseScheme || i >= 32 {
+				return "l" + strings.Repeat("b", i)
+			}
+			w := []byte("label")
+			for b := 0; b < 5; b++ {
+				if i&(1<<b) != 0 {
+					w[b] = w[b] - 'a' + 'A'
+				}
+			}
+			return string(w)
+		}
 		seen := map[string]bool{}
 		var walk func(t *Ty)
 		walk = func(t *Ty) {
@@ -401,9 +431,7 @@ func Rename(p *Program, intn func(int) int, opts ...RenameOpts) (*Program, *Rena
 			seen[fmt.Sprintf("%p", t)] = true
 			for _, b := range t.Brs {
 				if _, ok := r.brs[b.L]; !ok {
-					// deliberately prefix-related spellings: l, lb, lbb, ... (every label is a
-					// proper prefix of all later ones)
-					r.brs[b.L] = "l" + strings.Repeat("b", len(r.brs))
+					r.brs[b.L] = spell(len(r.brs))
 					info.BranchesRen++
 				}
 				walk(b.T)
@@ -586,4 +614,57 @@ func paramNames(d *Def) []string {
 		ns = append(ns, d.Prov)
 	}
 	return ns
+}
+
+// allChoiceLabels lists the branch labels of every type that occurs in the program.
+func allChoiceLabels(p *Program) []string {
+	set := map[string]bool{}
+	seen := map[*Ty]bool{}
+	var walk func(t *Ty)
+	walk = func(t *Ty) {
+		if t == nil || seen[t] {
+			return
+		}
+		seen[t] = true
+		for _, b := range t.Brs {
+			set[b.L] = true
+			walk(b.T)
+		}
+		walk(t.L)
+		walk(t.R)
+	}
+	for _, t := range p.Types {
+		walk(t.T)
+	}
+	for _, d := range p.Defs {
+		for _, q := range d.Params {
+			walk(q.T)
+		}
+		walk(d.Res)
+	}
+	for _, q := range p.Procs {
+		walk(q.T)
+	}
+	for _, t := range allTerms(p) {
+		switch x := t.(type) {
+		case *Recv:
+			walk(x.XT)
+			walk(x.YT)
+		case *Case:
+			for _, b := range x.Brs {
+				walk(b.PT)
+			}
+		case *New:
+			walk(x.XT)
+		case *Fwd:
+			walk(x.T)
+		case *Split:
+			walk(x.T)
+		case *Drop:
+			walk(x.T)
+		case *Shift:
+			walk(x.XT)
+		}
+	}
+	return SortedKeys(set)
 }
